@@ -78,6 +78,10 @@ Enc(s, k) == TLCEval(XorB(MixWith(MixM, TLCEval(SubBytes(ShiftRows(s)))), k))
 \* one AES decryption round (InvShiftRows, InvSubBytes, InvMixColumns, AddRoundKey) = x86 AESDEC
 Dec(s, k) == TLCEval(XorB(MixWith(InvMixM, TLCEval(InvSubBytes(InvShiftRows(s)))), k))
 
+\* inverses of the two rounds with respect to the state (used to walk a fingerprint chain backwards)
+EncInv(o, k) == TLCEval(InvShiftRows(TLCEval(InvSubBytes(MixWith(InvMixM, XorB(o, k))))))
+DecInv(o, k) == TLCEval(ShiftRows(TLCEval(SubBytes(MixWith(MixM, XorB(o, k))))))
+
 (***************************************************************************)
 (* T-table view used by the software implementation: table i, entry x is   *)
 (* the contribution of a byte x sitting in row i to its output column.     *)
@@ -147,6 +151,10 @@ HashAbsorb(st, block64) ==
 HashFinish(st) ==
   FoldLeft(LAMBDA s, j : << Enc(s[1], HashXKeys[j + 1]), Dec(s[2], HashXKeys[j + 1]),
                             Enc(s[3], HashXKeys[j + 1]), Dec(s[4], HashXKeys[j + 1]) >>,
+           st, Range0(2))
+HashFinishInv(st) ==
+  FoldLeft(LAMBDA s, j : << EncInv(s[1], HashXKeys[2 - j]), DecInv(s[2], HashXKeys[2 - j]),
+                            EncInv(s[3], HashXKeys[2 - j]), DecInv(s[4], HashXKeys[2 - j]) >>,
            st, Range0(2))
 Hash1RState(input, st0) ==
   FoldLeft(LAMBDA s, i : HashAbsorb(s, SubSeq(input, 64 * i + 1, 64 * i + 64)), st0,
